@@ -62,6 +62,10 @@ type Script struct {
 	UseGlobal bool   `json:"use_global,omitempty"`
 	GoFirst   []Rule `json:"go_first,omitempty"` // Go listener registered before the Lua host (MAIL and RCPT)
 	GoLast    []Rule `json:"go_last,omitempty"`  // Go listener registered after it
+	// Probe: a Go listener that never answers is registered before all others on the three
+	// before-events and, once everything is wired, removed ("remove") or registered again under
+	// its name ("readd"): the order of the listeners that do answer must be what it was.
+	Probe string `json:"probe,omitempty"`
 }
 
 var tokens = []string{"aa", "bb", "cc", "dd", "ee"}
@@ -354,6 +358,7 @@ var scriptGen = rapid.Custom(func(t *rapid.T) Script {
 		}
 		s.GoLast = []Rule{{Token: tok, Out: last}}
 	}
+	s.Probe = rapid.SampledFrom([]string{"", "", "remove", "readd"}).Draw(t, "probe")
 	return s
 })
 
@@ -435,11 +440,21 @@ func run(c Case) *hx.Outcome {
 	cfg.DiscardDomains = []string{"discard.test"}
 	cfg.MaxRecipients = 3
 	cfg.Lua = c.Script.Lua()
-	if len(c.Script.GoFirst) > 0 {
+	probe := func(h *extension.Host) {
+		h.Events.BeforeMailFromAccepted.AddListener("probe", func(event.SMTPSession) *event.SMTPResponse { return nil })
+		h.Events.BeforeRcptToAccepted.AddListener("probe", func(event.SMTPSession) *event.SMTPResponse { return nil })
+		h.Events.BeforeMessageStored.AddListener("probe", func(event.InboundMessage) *event.InboundMessage { return nil })
+	}
+	if len(c.Script.GoFirst) > 0 || c.Script.Probe != "" {
 		r := c.Script.GoFirst
 		cfg.PreHost = func(h *extension.Host) {
-			h.Events.BeforeMailFromAccepted.AddListener("gofirst", goListener(r, false))
-			h.Events.BeforeRcptToAccepted.AddListener("gofirst", goListener(r, true))
+			if c.Script.Probe != "" {
+				probe(h)
+			}
+			if len(r) > 0 {
+				h.Events.BeforeMailFromAccepted.AddListener("gofirst", goListener(r, false))
+				h.Events.BeforeRcptToAccepted.AddListener("gofirst", goListener(r, true))
+			}
 		}
 	}
 	if len(c.Script.GoLast) > 0 {
@@ -458,6 +473,16 @@ func run(c Case) *hx.Outcome {
 		return o
 	}
 	defer w.Close()
+	switch c.Script.Probe {
+	case "remove":
+		w.Host.Events.BeforeMailFromAccepted.RemoveListener("probe")
+		w.Host.Events.BeforeRcptToAccepted.RemoveListener("probe")
+		w.Host.Events.BeforeMessageStored.RemoveListener("probe")
+		o.Class("a silent listener removed after wiring")
+	case "readd":
+		probe(w.Host)
+		o.Class("a silent listener registered again after wiring")
+	}
 	results := make([]*result, len(c.Sessions))
 	var wg sync.WaitGroup
 	for si := range c.Sessions {
